@@ -154,7 +154,10 @@ impl Loader {
             None => false,
             Some("gcc") => false,
             Some("msvc") => true,
-            Some(other) => bail!("invalid deps attribute {:?}", other),
+            Some(other) => bail!(
+                "invalid deps attribute {:?}",
+                String::from_utf8_lossy(other.as_bytes())
+            ),
         };
         let pool = lookup("pool");
 
